@@ -23,7 +23,7 @@ RULE = ("case = scenario (functional in {solve, symeig, svd, rootfinder, equilib
         "instance, gc disabled; state = event history, observation = (live tensor count, storage bytes) relative to "
         "the baseline taken after the harness tensors exist; distinct = distinct per-scenario observation tables; a "
         "case is trivial when every event kind raised in the warm-up")
-RULE_ADDED = 'Added later: variants maxrank, singE, diag, tsgrad, vary (values never seen before in the process) and large (600 samples / 300 nodes: code paths selected by a size threshold). Round 4: variants raises (failed calls are part of the history and must leave nothing behind) and debug (every event inside enable_debug). Round 6: variants cutoff (iterations cut off by maxiter) and anomaly (events inside torch.autograd.detect_anomaly).'
+RULE_ADDED = 'Added later: variants maxrank, singE, diag, tsgrad, vary (values never seen before in the process) and large (600 samples / 300 nodes: code paths selected by a size threshold). Round 4: variants raises (failed calls are part of the history and must leave nothing behind) and debug (every event inside enable_debug). Round 6: variants cutoff (iterations cut off by maxiter) and anomaly (events inside torch.autograd.detect_anomaly). Round 7: variant nondiff (one parameter / the initial state is a tensor that does not require grad).'
 ASSUMPTIONS = [
     "one discarded warm-up call of each event kind per case (lazily created torch / library globals are not the property)",
     "census = torch.Tensor objects in gc.get_objects() allocated after gc.freeze() (taken after the warm-up); "
@@ -126,6 +126,11 @@ for _fn in ("rootfinder", "equilibrium", "minimize"):
         for _k in ("edmod", "nnmod"):
             VARIANTS.append((_fn, _m, _k, "cutoff"))
 VARIANTS.append(("solve", "broyden1", "mfree", "cutoff"))
+#   nondiff : one entry of the parameters (or the initial state) is a tensor that does NOT require grad, so the
+#             library's separation of differentiable and other arguments has something to carry along
+for _fn, _m in (("quad", "leggauss"), ("rootfinder", "broyden1"), ("equilibrium", "anderson_acc"), ("minimize", "gd"),
+                ("solve_ivp", "rk4"), ("solve_ivp", "rk45"), ("mcquad", "mhcustom"), ("mcquad", "_dummy1d")):
+    VARIANTS.append((_fn, _m, "pure", "nondiff"))
 VARIANTS.append(("symeig", "davidson", "mfree", "raises"))
 VARIANTS.append(("symeig", "davidson", "dense", "raises"))
 
@@ -215,6 +220,20 @@ class World:
             sc = self.sc
             sc.ts = sc.ts.detach().clone().requires_grad_()
             sc.leaves = list(sc.leaves) + [sc.ts]
+        elif var == "nondiff":
+            sc = self.sc
+            if fn == "quad":
+                sc.b = sc.b.detach().clone()
+                sc.leaves = [sc.a, sc.xl, sc.xu]
+            elif fn in ("rootfinder", "equilibrium", "minimize"):
+                sc.b = sc.b.detach().clone()
+                sc.leaves = [sc.A]
+            elif fn == "solve_ivp":
+                sc.y0 = sc.y0.detach().clone()
+                sc.leaves = [sc.A]
+            elif fn == "mcquad":
+                sc.s = sc.s.detach().clone()
+                sc.leaves = [sc.a]
         elif var == "zeroB":
             sc = self.sc
             sc.B = torch.zeros_like(sc.B).requires_grad_()
